@@ -252,6 +252,10 @@ def planted_files(rng, full=True):
         out.append(("f1_256_badstream", bytes(bad), None, 256))
     multi = bz2.compress(rng.randbytes(5000), 1) + bz2.compress(b"abc" * 3000, 9) + bz2.compress(b"", 5)
     out.append(("multi", multi, bz2.decompress(multi), 128))
+    # a head block that needs many output buffers, closely followed by many cheap blocks: the later blocks must not be
+    # able to take the output slots the head block still needs (the reservation thresholds of can_emit / can_retrieve)
+    longhead = bz2.compress(b"\0" * 70000, 1) + b"".join(bz2.compress(b"cheap block %d\n" % i, 1) for i in range(40))
+    out.append(("longhead", longhead, bz2.decompress(longhead), 128))
     return out
 
 
